@@ -43,14 +43,15 @@ def _place(payload: bytearray, at: int, b: bytes) -> None:
 def guard_area(g):
     """Masked beacon config (6144) + masked guard config (2048) for a guard spec; returns (bytes, info)."""
     cfg = builder.encode_settings(g["settings"], terminator=True, pad_to=None)
-    area, info = builder.build_guardrails(cfg, unhx(g["env_key"]), g["guard"])
+    cp = g.get("checksum_pos")
+    area, info = builder.build_guardrails(cfg, unhx(g["env_key"]), g["guard"], checksum_pos=cp)
     if g.get("checksum_mode") == "zero":
-        area, info = builder.build_guardrails(cfg, unhx(g["env_key"]), g["guard"], checksum_override=0)
+        area, info = builder.build_guardrails(cfg, unhx(g["env_key"]), g["guard"], checksum_override=0, checksum_pos=cp)
     elif g.get("checksum_mode") == "absent":
         area, info = builder.build_guardrails(cfg, unhx(g["env_key"]), g["guard"], with_checksum=False)
     elif g.get("checksum_delta"):
         area, info = builder.build_guardrails(cfg, unhx(g["env_key"]), g["guard"],
-                                              checksum_override=(info["checksum"] + g["checksum_delta"]) & 0xFFFFFFFF)
+                                              checksum_override=(info["checksum"] + g["checksum_delta"]) & 0xFFFFFFFF, checksum_pos=cp)
     return area, info
 
 
